@@ -788,6 +788,11 @@ func (w *relayWorld) evAllocate(ci int, tid int, c credSpec, transport, lifetime
 }
 
 func (w *relayWorld) evAllocateX(ci int, tid int, c credSpec, transport, lifetime, family attrSpec, dontfrag bool, port int, unknown bool, x allocExtra) {
+	if _, known := w.tokenPort[x.rtoken.val]; known && x.rtoken.kind == 2 && transport.kind == 2 && transport.val == 6 {
+		// a reserved port is a UDP port; a TCP allocation on it would share the model's (protocol-less) relay address
+		// with a UDP allocation on the same number - the generator keeps the two number spaces apart
+		transport = attrSpec{2, 17}
+	}
 	w.nextPort = port
 	setters := []stun.Setter{&stun.Message{TransactionID: tidBytes(tid)}, stun.NewType(stun.MethodAllocate, stun.ClassRequest)}
 	setters = append(setters, w.u32Attr(stun.AttrRequestedTransport, transport, true)...)
